@@ -8,10 +8,9 @@
 (*   pools[h]  the pool OBJECT in handle h (a Python variable): ex, kind    *)
 (*             ("array" | "output"), name ("" = None), prefix, bs (0 =      *)
 (*             None), seed (-1 = None), order (the keys of self.stores in   *)
-(*             dict order), st[node] (the store object), and two ghosts:    *)
-(*             gst ("open" | "closed" | "deleted": the last of close() /    *)
-(*             delete() that returned) and jo (returned by open(), no call  *)
-(*             since).                                                      *)
+(*             dict order), st[node] (the store object), and the ghost gst  *)
+(*             ("open" | "closed" | "deleted": the last of close() /        *)
+(*             delete() that returned).                                     *)
 (*   store     k ("absent" | "none" | "dict" | "bad" | "npy"); for dicts c  *)
 (*             (batch index -> value); for NpyStores n (n_batches), al      *)
 (*             (len(array) in batches, as THIS object believes), op (the    *)
@@ -107,7 +106,7 @@ NoSpk == [k |-> "absent", n |-> 0, c |-> EmptyC, ref |-> NoDir]
 NoPkl == [ex |-> FALSE, kind |-> "", bs |-> 0, seed |-> -1, order |-> <<>>]
 NoDirRec == [ex |-> FALSE, pkl |-> NoPkl, spk |-> [x \in Nodes |-> NoSpk], npy |-> [x \in Nodes |-> NoFile]]
 NoPool == [ex |-> FALSE, kind |-> "", name |-> "", prefix |-> "", bs |-> 0, seed |-> -1, order |-> <<>>,
-           st |-> [x \in Nodes |-> Absent], gst |-> "open", jo |-> FALSE]
+           st |-> [x \in Nodes |-> Absent], gst |-> "open"]
 
 S0 == [pools |-> [h \in Handles |-> NoPool], disk |-> [d \in Dirs |-> NoDirRec], cwd |-> Home, torn |-> FALSE]
 
@@ -282,7 +281,7 @@ New(S, c) ==
   ELSE R3(Ok([S EXCEPT !.pools[c.h] = [ex |-> TRUE, kind |-> c.kind, name |-> c.name, prefix |-> c.prefix, bs |-> 0, seed |-> -1,
                                        order |-> c.outs,
                                        st |-> [x \in Nodes |-> IF x \in SeqSet(c.outs) THEN NoneSt ELSE Absent],
-                                       gst |-> "open", jo |-> FALSE]]))
+                                       gst |-> "open"]]))
 
 SetContext(S, c) ==
   LET p == S.pools[c.h] IN
@@ -384,13 +383,9 @@ RunRaw(S, c) ==
     [] c.op = "copy" -> CopyDir(S, c)
     [] c.op = "chdir_home" -> ChdirHome(S, c)
 
-\* one public call: the transcription w = RunRaw(S, c), then the repair "atomic" and the ghost jo
+\* one public call: the transcription w = RunRaw(S, c), then the repair "atomic"
 Finish(S, c, w) ==
-  LET s1 == IF w.raised # "" /\ "atomic" \in Fix THEN [S EXCEPT !.cwd = w.s.cwd] ELSE w.s
-      h == c.h
-      s2 == IF h \in Handles /\ c.op \notin EnvOps /\ s1.pools[h].ex
-            THEN [s1 EXCEPT !.pools[h].jo = (c.op = "open" /\ w.raised = "")] ELSE s1
-  IN [s |-> s2, raised |-> w.raised, ret |-> w.ret]
+  [s |-> IF w.raised # "" /\ "atomic" \in Fix THEN [S EXCEPT !.cwd = w.s.cwd] ELSE w.s, raised |-> w.raised, ret |-> w.ret]
 Run(S, c) == Finish(S, c, RunRaw(S, c))
 
 \* ------------------------------------------------------------------ ghosts for the round trip
@@ -401,27 +396,31 @@ StoreView(S, node, st) ==
 View(S, p) == [kind |-> p.kind, bs |-> p.bs, seed |-> p.seed, order |-> p.order,
                sv |-> [j \in 1..Len(p.order) |-> StoreView(S, p.order[j], p.st[p.order[j]])]]
 NoView == [kind |-> "", bs |-> 0, seed |-> -1, order |-> <<>>, sv |-> <<>>]
-G0 == [snap |-> [d \in Dirs |-> NoView], snapok |-> [d \in Dirs |-> FALSE]]
+G0 == [snap |-> [d \in Dirs |-> NoView], snapok |-> [d \in Dirs |-> FALSE], jo |-> [h \in Handles |-> FALSE]]
 
 RefDirs(S, d) == {d} \cup ({S.disk[d].spk[x].ref : x \in Nodes} \cap Dirs)
-\* snap[d] = what the pool looked like when close() last returned into d; snapok[d] = nothing d's pickles refer to changed since
+\* snap[d] = what the pool looked like when close() last returned into d; snapok[d] = nothing d's pickles refer to changed
+\* since; jo[h] = the pool in h was returned by open() after that close(), and no call was made on it since
 GhostStep(G, S, c, r) ==
   LET same(d) == \A dd \in RefDirs(S, d) : r.s.disk[dd] = S.disk[dd]
       kept == [d \in Dirs |-> G.snapok[d] /\ same(d)]
-  IN IF c.op = "close" /\ r.raised = ""
-     THEN LET d == PathOf(r.s.pools[c.h]) IN
-          [snap |-> [G.snap EXCEPT ![d] = View(r.s, r.s.pools[c.h])], snapok |-> [kept EXCEPT ![d] = TRUE]]
+      closed == IF c.op = "close" /\ r.raised = "" THEN PathOf(r.s.pools[c.h]) ELSE NoDir
+      jo == [h \in Handles |-> IF h = c.h THEN c.op = "open" /\ r.raised = ""
+                                ELSE G.jo[h] /\ r.s.pools[h].ex /\ PathOf(r.s.pools[h]) # closed]
+  IN IF closed # NoDir
+     THEN [snap |-> [G.snap EXCEPT ![closed] = View(r.s, r.s.pools[c.h])], snapok |-> [kept EXCEPT ![closed] = TRUE], jo |-> jo]
      ELSE IF c.op \in {"move", "copy"} /\ r.raised = ""
      THEN [snap |-> [G.snap EXCEPT ![c.d2] = G.snap[c.d1]],
-           snapok |-> [d \in Dirs |-> IF d = c.d2 THEN G.snapok[c.d1] ELSE IF d = c.d1 /\ c.op = "move" THEN FALSE ELSE kept[d]]]
-     ELSE [snap |-> G.snap, snapok |-> kept]
+           snapok |-> [d \in Dirs |-> IF d = c.d2 THEN G.snapok[c.d1] ELSE IF d = c.d1 /\ c.op = "move" THEN FALSE ELSE kept[d]],
+           jo |-> jo]
+     ELSE [snap |-> G.snap, snapok |-> kept, jo |-> jo]
 
 \* ------------------------------------------------------------------ what a user relies on: state invariants
 Live(S) == {h \in Handles : S.pools[h].ex}
 \* close() ; open(name, prefix) gives the same pool: stores (in order), batch_size, seed, and per store the same batches
 RoundTripFor(S, G, strict) ==
   \A h \in Live(S) : LET p == S.pools[h] d == PathOf(p) IN
-     (p.jo /\ d \in Dirs /\ G.snapok[d]
+     (G.jo[h] /\ d \in Dirs /\ G.snapok[d]
         /\ (\A j \in 1..Len(G.snap[d].sv) : G.snap[d].sv[j].k = "npy" => (G.snap[d].sv[j].fx /\ (strict => G.snap[d].sv[j].ini))))
      => View(S, p) = G.snap[d]
 InvRoundTrip(S, G) == S.torn \/ RoundTripFor(S, G, FALSE)
@@ -436,7 +435,7 @@ InvCwdKept(S) == S.cwd = Home
 InvSelfContained(S) == S.torn \/ \A h \in Live(S), x \in Nodes : LET st == S.pools[h].st[x] IN st.k = "npy" => st.d = PathOf(S.pools[h])
 
 \* ------------------------------------------------------------------ ... and about single calls (S before, T after)
-Strip(p) == [p EXCEPT !.jo = FALSE, !.gst = "open"]
+Strip(p) == [p EXCEPT !.gst = "open"]
 PoolsEq(S, T) == \A h \in Handles : Strip(S.pools[h]) = Strip(T.pools[h])
 \* a call that raises changes nothing
 AtomicOK(S, T, c, raised) == (raised # "" /\ ~T.torn) => (PoolsEq(S, T) /\ T.disk = S.disk)
